@@ -259,6 +259,12 @@ def queries(tier):
         qs.append(Query(f"bmc_{name}", f, K, covers=covers, split=False, timeout=300, tactic=TACTIC.get(name),
                         desc=f"scripted framing {name}: lengths/gap positions concrete, all data, CRC masks, junk and "
                              "following traffic symbolic"))
+    # the maximum data length (1024 bytes): only the head of the packet fits a short bound, which is enough to see that the
+    # length field is taken at full width -- no verdict, no end of payload within the first words
+    fmax = lambda: DataRxHarness([dict(length=1024, idle_after=2)])
+    qs.append(Query("bmc_len1024_head", fmax, 14, asserts=["verdict_time", "verdict_value", "verdict_once", "length"],
+                    covers=[], split=False, timeout=300,
+                    desc="header + first payload words of a 1024-byte packet (K=14 of its 265 words): nothing is reported early"))
     f2 = lambda: DataRxHarness([dict(length=5, gaps=(7,), hdr_masks="zero", type=8), dict(length=0, idle_after=1),
                                 dict(length=8, gaps=(2,), idle_after=2, hdr_masks="zero", type=8)])
     qs.append(Query("cosim", f2, 0, kind="cosim", cosim_cycles=60 if tier == "quick" else 200))
